@@ -23,11 +23,11 @@ pub fn def() -> PropDef {
     PropDef {
         id: "C18",
         level: "exploration",
-        rule: "file-backed stores built from every subset of size <= k of a 16-entry universe (2 documents x 2 authors x keys {'',a,ab}, equal timestamps, deletion markers), flushed and closed; then, with plain redb, the per-author head table, the by-key index, both or neither are deleted and the store is reopened 1..3 times; heads must equal the per-author maximum over the records, key-ordered queries (flat key-author and latest-per-key, both directions, with and without empties) must equal the query oracle, and without deletion the whole observable content must be identical after every reopen; non-trivial = a non-empty store with at least one derived table deleted",
+        rule: "file-backed stores built from every subset of size <= k of a 16-entry universe (2 documents x 2 authors x keys {'',a,ab}, equal timestamps, deletion markers), flushed and closed; then, with plain redb, the per-author head table, the by-key index, both or neither are deleted and the store is reopened 1..3 times (each subset offered in universe order and in reverse order, so that on equal timestamps the maintained head is not always the one at the greatest key); heads must equal the per-author maximum over the records, key-ordered queries (flat key-author and latest-per-key, both directions, with and without empties) must equal the query oracle, and without deletion the whole observable content must be identical after every reopen; non-trivial = a non-empty store with at least one derived table deleted",
         assumptions: &["tables are deleted whole (as an older version would simply not have them); partially filled derived tables are outside the statement", "where several keys attain an author's maximal timestamp any of them is accepted as the head's key"],
         bound: |t| match t {
-            Tier::Quick => json!({"subsets": "<= 3 of 16 (697 stores)", "variants": 4, "reopen_cycles": "1..3"}),
-            Tier::Thorough => json!({"subsets": "<= 4 of 16 (2517 stores)", "variants": 4, "reopen_cycles": "1..3"}),
+            Tier::Quick => json!({"subsets": "<= 4 of 16 (2517 stores)", "variants": "4 x 2 arrival orders", "reopen_cycles": "1..3"}),
+            Tier::Thorough => json!({"subsets": "<= 5 of 16 (6885 stores)", "variants": "4 x 2 arrival orders", "reopen_cycles": "1..3"}),
         },
         run,
         replay,
@@ -122,13 +122,20 @@ fn run_case(offered: &[Spec], variant: u8) -> (Vec<(&'static str, String)>, u64)
     let path = dir.path().join("docs.redb");
     let maintained = {
         let mut sut = Sut::persistent_with(&path, &[0, 1]).expect("store");
-        for s in offered {
+        // bit 2 of the variant: entries arrive in the reverse order (where two entries of an
+        // author share its greatest timestamp the maintained head names the one stored last,
+        // which is then not the one at the greatest key)
+        let order: Vec<&Spec> = if variant & 4 != 0 { offered.iter().rev().collect() } else { offered.iter().collect() };
+        for s in order {
             let _ = sut.remote(ns_id(s.ns), s.signed());
         }
         let o = observe(&mut sut);
         sut.store.flush().expect("flush");
         o
     };
+    let reversed = variant & 4 != 0;
+    let variant = variant & 3;
+    let _ = reversed;
     if variant != 0 {
         let db = redb::Database::create(&path).expect("plain redb open");
         let tx = db.begin_write().expect("begin_write");
@@ -265,17 +272,20 @@ fn run_case(offered: &[Spec], variant: u8) -> (Vec<(&'static str, String)>, u64)
 fn run(ctx: &Ctx, report: &mut Report) {
     crate::util::silence_panics();
     let u = universe16();
-    let k = if ctx.quick() { 3 } else { 4 };
+    let k = if ctx.quick() { 4 } else { 5 };
     let mut ordinal = 0u64;
     for sub in subsets_up_to(u.len(), k) {
         let offered: Vec<Spec> = sub.iter().map(|&i| u[i].clone()).collect();
-        for variant in 0u8..4 {
+        for variant in 0u8..8 {
+            if variant & 4 != 0 && offered.len() < 2 {
+                continue;
+            }
             ordinal += 1;
             if !ctx.mine(ordinal) {
                 continue;
             }
             report.evaluations += 1;
-            if !offered.is_empty() && variant != 0 {
+            if !offered.is_empty() && variant & 3 != 0 {
                 report.nontrivial += 1;
             }
             let case = json!({"offered": offered, "variant": variant});
@@ -291,7 +301,7 @@ fn run(ctx: &Ctx, report: &mut Report) {
                             report.violation(o, json!({"variant": variant}), case.clone(), d, ordinal);
                         }
                     }
-                    if offered.len() == 3 && variant == 3 {
+                    if offered.len() == 3 && variant & 3 == 3 {
                         report.sample(|| json!({"offered": offered.iter().map(|s| s.to_string()).collect::<Vec<_>>(), "deleted": "heads+by-key", "reopen_cycles": 3, "checks": checks}));
                     }
                 }
